@@ -706,9 +706,54 @@ def pending(s):
     return min(c) if c else None
 
 
+def _shift_norm(x, off):
+    """the object with every Time moved back by `off` (generic walk over the frozen dataclasses)"""
+    import dataclasses
+    if isinstance(x, Time):
+        return ("T", x.time - off)
+    if isinstance(x, (str, int, float, bool)) or x is None:
+        return x
+    if isinstance(x, (tuple, list)):
+        return tuple(_shift_norm(y, off) for y in x)
+    if isinstance(x, dict):
+        return tuple(sorted((str(k), _shift_norm(v, off)) for k, v in x.items()))
+    if dataclasses.is_dataclass(x):
+        return (type(x).__name__,) + tuple(_shift_norm(getattr(x, f.name), off) for f in dataclasses.fields(x))
+    if hasattr(x, "name") and hasattr(x, "value"):
+        return x.name
+    return repr(x)
+
+
+def c12_shift(ctx):
+    tw = getattr(ctx.run, "twin", None)
+    if tw is None or tw.env is None:
+        return
+    a = ctx.records[:1] + [r for r in ctx.records[1:] if r.kind == "act"]
+    b = tw.records[:1] + [r for r in tw.records[1:] if r.kind == "act"]
+    start_a = ctx.init_state.time.time if isinstance(ctx.init_state.time, Time) else 0
+    start_b = start_a + tw.delta
+    for i, (ra, rb) in enumerate(zip(a, b)):
+        if (ra.error is None) != (rb.error is None):
+            yield F("shifted-run-differs:error", f"step {i}: {ra.error!r} vs {rb.error!r} (start {start_a} vs {start_b})", i)
+            return
+        if ra.error is not None:
+            return
+        sa, sb = ra.env_state, rb.env_state
+        if _shift_norm(sa.state, start_a) != _shift_norm(sb.state, start_b):
+            yield F("shifted-run-differs:state", f"step {i}: start {start_a} vs {start_b}: {sa.state} vs {sb.state}", i)
+            return
+        if tuple(sa.possible_transitions) != tuple(sb.possible_transitions):
+            yield F("shifted-run-differs:offers", f"step {i}: {sa.possible_transitions} vs {sb.possible_transitions}", i)
+            return
+        if ra.kind == "act" and (ra.terminated, ra.truncated) != (rb.terminated, rb.truncated):
+            yield F("shifted-run-differs:flags", f"step {i}", i)
+            return
+
+
 def c12(ctx):
     if ctx.instance is None:
         return
+    yield from c12_shift(ctx)
     for si, rec in enumerate(ctx.records):
         if rec.kind not in ("reset", "act", "smstep", "smapply"):
             continue
